@@ -13,7 +13,16 @@ Projection of a float x onto a lattice of step 1/q: round(x*q) if |x*q - round| 
 (or "offgrid" in s); hz = 1/64 Hz, mn = cpsmidi(x) in 1/64 semitone, u = 1/163840 s, au = 1/13004800."""
 import json
 import math
+import signal
 import sys
+
+
+class Timeout(BaseException):
+    pass
+
+
+def _alarm(signum, frame):
+    raise Timeout()
 
 U = 163840
 AU = 13004800
@@ -184,6 +193,7 @@ def play(m, case):
            'score': [], 'endu': -1, 'exc': ''}
     m.main.reset()
     m.Server.default.latency = case['lat'] / 32
+    signal.setitimer(signal.ITIMER_REAL, m.timeout)  # a play that never ends is recorded, not waited for
     try:
         pat = build(m, case['E'])
         clock = m.clk.TempoClock(1) if case.get('clock') == 'tempo' else m.clk.SystemClock
@@ -212,9 +222,13 @@ def play(m, case):
                     e['pars'].append(arg('dangling', str(rest[-1])))
                 out['score'].append(e)
         out['endu'] = proj(m.main.elapsed_time(), U)
+    except Timeout:
+        out['exc'] = 'timeout'
+        out['score'] = out['score'][:50]
     except Exception as ex:
         out['exc'] = type(ex).__name__ + ':' + str(ex)[:80]
     finally:
+        signal.setitimer(signal.ITIMER_REAL, 0)
         m.main.reset()
     return out
 
@@ -222,6 +236,8 @@ def play(m, case):
 def main():
     inp = json.load(open(sys.argv[1]))
     m = setup()
+    m.timeout = float(inp.get('timeout', 10.0))
+    signal.signal(signal.SIGALRM, _alarm)
     traces = [lookups(m, c) for c in inp.get('lookups', [])]
     traces += [play(m, c) for c in inp.get('plays', [])]
     json.dump({'traces': traces}, open(sys.argv[2], 'w'))
